@@ -207,6 +207,7 @@ def run_shard(sh):
             if pv not in extra:
                 extra.append(pv)
     extra = extra[-1:]  # a name spelled like a mapped folder (e.g. PUBLISH)
+    extra += ["$HOME", "${HOME}", "~", "%HOME%"]        # names spelled like shell / environment syntax (HOME is set in every worker)
     for k, m in prefs[names[0]].mapping.items():   # ... and names spelled like the Sid-side values of the mapped keys (hamlet, a, s, w, p)
         for sv in m.values():
             if isinstance(sv, str) and sv not in extra:
